@@ -9,7 +9,6 @@ import (
 	"verifharness/internal/c01"
 	"verifharness/internal/c06"
 	"verifharness/internal/c07"
-	"verifharness/internal/c20"
 	"verifharness/internal/c08"
 	"verifharness/internal/c14"
 	"verifharness/internal/c15"
@@ -17,6 +16,7 @@ import (
 	"verifharness/internal/c17"
 	"verifharness/internal/c18"
 	"verifharness/internal/c19"
+	"verifharness/internal/c20"
 	"verifharness/internal/common"
 )
 
